@@ -136,8 +136,14 @@ func readSizedArray(r io.Reader, size any, data *[]byte) error {
 	if err != nil {
 		return err
 	}
-	if _, err := r.Read(result); err != nil {
-		return err
+	// io.Reader.Read may legally return fewer bytes than asked for (and bytes.Reader returns
+	// io.EOF for an empty read at the end): the array is only complete when all of it was read.
+	if n, err := io.ReadFull(r, result); err != nil {
+		if err == io.EOF {
+			// The size prefix was consumed, so running out of input here is never a clean end.
+			err = io.ErrUnexpectedEOF
+		}
+		return fmt.Errorf("failed to read array sized %d (read %d bytes): %w", len(result), n, err)
 	}
 	*data = result
 	return nil
